@@ -459,8 +459,9 @@ def copy_linear(ctx: Ctx) -> List[Ob]:
         raise AnalysisError("_add_filtered: the parent materialiser was not found")
     cp = mats[0]
     idempotent = has(f"{ps}[$i] = (True, $p)", cp.node)
-    obs.append(ctx.ob("COPY-LINEAR", ["C08"], cp, "the parent materialiser marks materialised entries (idempotent)", None, idempotent,
-                      "" if idempotent else "without the (True, node) overwrite every call re-copies all pending ancestors"))
+    # (the two stack clauses read the (is_existing, node) tuple stack; another bookkeeping - two lists, a counter - is undecided)
+    obs.append(ctx.tri("COPY-LINEAR", ["C08"], cp, "the parent materialiser marks materialised entries (idempotent)", None, idempotent if pending else None,
+                       "without the (True, node) overwrite every call re-copies all pending ancestors"))
     resv = None
     for st in lp.body:
         for x in ast.walk(st):
@@ -503,8 +504,8 @@ def copy_linear(ctx: Ctx) -> List[Ob]:
                 from ..cfg import describe_path
 
                 path = describe_path(p_)
-    obs.append(ctx.ob("COPY-LINEAR", ["C08"], f, "the pending entry is popped on every path to the next iteration", lp, ok,
-                      "" if ok else "a stale stack entry stays behind: later accepted nodes are materialised below the wrong parent", path))
+    obs.append(ctx.tri("COPY-LINEAR", ["C08"], f, "the pending entry is popped on every path to the next iteration", lp, ok if pending else None,
+                       "a stale stack entry stays behind: later accepted nodes are materialised below the wrong parent", path))
     g = m.func("Node._add_from")
     src = [p for p in g.positional_params() if p != g.self_name][0]
     lps = [n for n in iter_own(g.node) if isinstance(n, ast.For) and isinstance(n.target, ast.Name)]
